@@ -32,7 +32,7 @@ var AttrTable = []AttrRule{
 type AttrVerdict struct {
 	OK bool
 	// on failure
-	Class    int    // ClassWithdraw or ClassDiscard
+	Class    int     // ClassWithdraw or ClassDiscard
 	Subcodes []uint8 // acceptable RFC 4271 subcodes of the fallback NOTIFICATION
 	// on success: the decoded value in a normal form
 	U32s  []uint32 // ORIGIN (1 value), MED, LOCAL_PREF, COMMUNITIES, AGGREGATOR AS, large communities flattened
